@@ -724,9 +724,12 @@ def rule_RK(run: Run) -> RuleResult:
             if p.status != "ret":
                 continue
             kinds_true = []
-            for c in p.conds:
-                if c[0].startswith("isinstance(") and c[1] is True:
-                    kinds_true.append(c[0][len("isinstance("):-1].split(",", 1)[1].strip())
+            for ck_, pol_ in Frame.atoms(p.conds).items():
+                mk_ = re.match(r"call:isinstance\((\w+),(.*)\)$", ck_)
+                if mk_ and pol_ is True:
+                    # the kind tested, from the term (class<…X> / ext<typing.X> / name<X> / a tuple of them)
+                    for nm_ in re.findall(r"(?:class|ext|name)<([^>]+)>", mk_.group(2)):
+                        kinds_true.append(nm_.split(".")[-1])
             if not kinds_true:
                 continue
             n_branches += 1
